@@ -504,6 +504,15 @@ Fixpoint updates (m : emodel) (xs : list (list Qc)) (st : est) : option est :=
   end.
 Definition vsum (n : nat) (xs : list (list Qc)) : list Qc := fold_left vadd xs (repeat 0 n).
 
+(** A caller that catches the ValueError of a rejected update and keeps using the model:
+    [None] = raised, and a raised call has changed nothing. *)
+Definition update_or_keep (m : emodel) (st : est) (x : list Qc) : est :=
+  match update m x st with Some st' => st' | None => st end.
+Definition run_history (m : emodel) (xs : list (list Qc)) (st : est) : est :=
+  fold_left (update_or_keep m) xs st.
+Definition accepted (m : emodel) (xs : list (list Qc)) : list (list Qc) :=
+  filter (fun x => Nat.eqb (List.length x) (n_states m)) xs.
+
 (* ------------------------------------------------------------------ *)
 (** * Case evaluation vocabulary (used by the generated files of tools/props/C14.py only)
 
